@@ -171,6 +171,11 @@ func SimC04(c *CheckCtx, i int, r *Rng) error {
 		faulty.Faults = []proto.Fault{{ExecSeq: -1, Kind: Pick(r, []string{"os.open", "os.write"}), Path: tmp, Phase: "exec", Nth: 0, Do: Pick(r, []string{"errno:EISDIR", "errno:ENOSPC", "errno:EACCES"})}}
 		again := mkRun(asc, args.Entrypoint, false) // not forced: a failed run must not have been recorded as done
 		sc.Variants = append(sc.Variants, Variant{Name: "eventual:io-fault", Ops: []Op{{Kind: "run", Run: faulty}, {Kind: "run", Run: again}}})
+		// the caller gives up (cancels its context) while a callback is running, then runs again in the
+		// same process: whatever the first call did or did not finish, the end state is the same
+		cancelled := mkRun(asc, args.Entrypoint, true)
+		cancelled.Faults = []proto.Fault{{ExecSeq: -1, Kind: Pick(r, []string{"gen", "gen", "new"}), Gen: g, Nth: r.Intn(3), Do: "cancel"}}
+		sc.Variants = append(sc.Variants, Variant{Name: "eventual:cancelled", Ops: []Op{{Kind: "run", Run: cancelled}, {Kind: "run", Run: mkRun(asc, args.Entrypoint, false)}}})
 	}
 	// ... and that has generated OTHER packages of the module before (in a scratch copy of the world)
 	allEps := make([]int, len(m.Pkgs))
